@@ -163,12 +163,15 @@ type rankKey struct {
 
 type monoMon struct {
 	last map[rankKey]recView
+	// instant at which the monitor itself first saw the record dead/left (the record's own
+	// StateChange field is the library's bookkeeping and is not trusted for the retention rule)
+	deadSince map[rankKey]time.Time
 	gtd  time.Duration
 	checks int64
 }
 
 func newMonoMon(gossipToDead time.Duration) *monoMon {
-	return &monoMon{last: map[rankKey]recView{}, gtd: gossipToDead}
+	return &monoMon{last: map[rankKey]recView{}, deadSince: map[rankKey]time.Time{}, gtd: gossipToDead}
 }
 
 func strength(s NodeStateType) int {
@@ -213,6 +216,13 @@ func (mm *monoMon) step(cx *clusterRun) {
 				}
 			}
 			mm.last[k] = cur
+			if cur.State == StateDead || cur.State == StateLeft {
+				if _, since := mm.deadSince[k]; !since {
+					mm.deadSince[k] = now
+				}
+			} else {
+				delete(mm.deadSince, k)
+			}
 		}
 		for k, prev := range mm.last {
 			if k.obs == n.idx && k.m == m && !seen[k.who] && prev.Present {
@@ -220,6 +230,12 @@ func (mm *monoMon) step(cx *clusterRun) {
 				if !(prev.State == StateDead || prev.State == StateLeft) || now.Sub(prev.Change) <= mm.gtd {
 					cx.c.Violate("record-vanished", "", n.name, "%s: record of %s (%s, changed %v ago) disappeared", n.name, k.who, prev, now.Sub(prev.Change))
 				}
+				if since, ok := mm.deadSince[k]; ok && !prev.Change.IsZero() && (prev.State == StateDead || prev.State == StateLeft) && now.Sub(since) <= mm.gtd {
+					// the tombstone is what keeps alive messages no newer than the death/departure from
+					// bringing the member back; it must be retained for GossipToTheDeadTime
+					cx.c.Violate("record-vanished", "", n.name, "%s: tombstone of %s (%s) was reaped %v after the member was recorded dead/left; retention (GossipToTheDeadTime) is %v", n.name, k.who, prev, now.Sub(since), mm.gtd)
+				}
+				delete(mm.deadSince, k)
 				delete(mm.last, k)
 			}
 		}
